@@ -483,7 +483,7 @@ pub fn bal(
     let block_index = {
         let block = control_flow_graph.new_block()?;
 
-        block.assign(scalar("$ra", 32), expr_const(instruction.address + 8, 32));
+        // $ra is written before the delay slot (see link_graph in mod.rs)
         block.branch(expr_const(operand.imm() as u64, 32));
 
         block.index()
@@ -501,15 +501,10 @@ pub fn bgezal(
 ) -> Result<(), Error> {
     let detail = details(instruction)?;
 
-    let lhs = get_register(detail.operands[0].reg())?.expression();
-    let zero = expr_const(0, 32);
     let target = expr_const(detail.operands[1].imm() as u64, 32);
 
-    let head_index = {
-        let block = control_flow_graph.new_block()?;
-        block.assign(scalar("$ra", 32), expr_const(instruction.address + 8, 32));
-        block.index()
-    };
+    // $ra is written and the condition latched before the delay slot (see link_graph in mod.rs)
+    let head_index = { control_flow_graph.new_block()?.index() };
 
     let true_index = {
         let block = control_flow_graph.new_block()?;
@@ -521,14 +516,10 @@ pub fn bgezal(
 
     let terminating_index = { control_flow_graph.new_block()?.index() };
 
-    let false_condition = Expr::cmplts(lhs, zero)?;
+    let true_condition = expr_scalar("branching_condition", 1);
+    let false_condition = Expr::cmpeq(true_condition.clone(), expr_const(0, 1))?;
 
-    control_flow_graph.conditional_edge(
-        head_index,
-        true_index,
-        Expr::cmpeq(false_condition.clone(), expr_const(0, 1))?,
-    )?;
-
+    control_flow_graph.conditional_edge(head_index, true_index, true_condition)?;
     control_flow_graph.conditional_edge(head_index, terminating_index, false_condition)?;
 
     control_flow_graph.unconditional_edge(true_index, terminating_index)?;
@@ -545,15 +536,10 @@ pub fn bltzal(
 ) -> Result<(), Error> {
     let detail = details(instruction)?;
 
-    let lhs = get_register(detail.operands[0].reg())?.expression();
-    let zero = expr_const(0, 32);
     let target = expr_const(detail.operands[1].imm() as u64, 32);
 
-    let head_index = {
-        let block = control_flow_graph.new_block()?;
-        block.assign(scalar("$ra", 32), expr_const(instruction.address + 8, 32));
-        block.index()
-    };
+    // $ra is written and the condition latched before the delay slot (see link_graph in mod.rs)
+    let head_index = { control_flow_graph.new_block()?.index() };
 
     let true_index = {
         let block = control_flow_graph.new_block()?;
@@ -565,7 +551,7 @@ pub fn bltzal(
 
     let terminating_index = { control_flow_graph.new_block()?.index() };
 
-    let true_condition = Expr::cmplts(lhs, zero)?;
+    let true_condition = expr_scalar("branching_condition", 1);
     let false_condition = Expr::cmpeq(true_condition.clone(), expr_const(0, 1))?;
 
     control_flow_graph.conditional_edge(head_index, true_index, true_condition)?;
@@ -829,7 +815,7 @@ pub fn jal(
     let block_index = {
         let block = control_flow_graph.new_block()?;
 
-        block.assign(scalar("$ra", 32), expr_const(instruction.address + 8, 32));
+        // $ra is written before the delay slot (see link_graph in mod.rs)
         block.branch(expr_const(detail.operands[0].imm() as u64, 32));
 
         block.index()
@@ -841,18 +827,33 @@ pub fn jal(
     Ok(())
 }
 
+/// The link register and the target of a `jalr`: capstone gives `jalr $rs` (linking `$ra`) one
+/// operand and `jalr $rd, $rs` two.
+pub fn jalr_operands(instruction: &capstone::Instr) -> Result<(Scalar, Expression), Error> {
+    let detail = details(instruction)?;
+    if detail.op_count >= 2 {
+        Ok((
+            get_register(detail.operands[0].reg())?.scalar(),
+            get_register(detail.operands[1].reg())?.expression(),
+        ))
+    } else {
+        Ok((
+            scalar("$ra", 32),
+            get_register(detail.operands[0].reg())?.expression(),
+        ))
+    }
+}
+
 pub fn jalr(
     control_flow_graph: &mut ControlFlowGraph,
     instruction: &capstone::Instr,
 ) -> Result<(), Error> {
-    let detail = details(instruction)?;
-
-    let target = get_register(detail.operands[0].reg())?.expression();
+    let (_, target) = jalr_operands(instruction)?;
 
     let block_index = {
         let block = control_flow_graph.new_block()?;
 
-        block.assign(scalar("$ra", 32), expr_const(instruction.address + 8, 32));
+        // the link register is written before the delay slot (see link_graph in mod.rs)
         block.branch(target);
 
         block.index()
